@@ -294,7 +294,7 @@ class DefaultValuesArea(Area):
             return
 
         if self.changed_defaults:
-            for sym_name, kconfig_value, sdkconfig_value, loc in self.changed_defaults:
+            for sym_name, kconfig_value, sdkconfig_value, loc in self._ordered(self.changed_defaults):
                 prefix = f"{escape(loc)}: " if loc else ""
                 self._log_for_severity(
                     f"{prefix}{sym_name}: Kconfig default value: {kconfig_value}, "
@@ -302,7 +302,7 @@ class DefaultValuesArea(Area):
                 )
 
         if self.changed_choices:
-            for choice_name, kconfig_selection, sdkconfig_selection, loc in self.changed_choices:
+            for choice_name, kconfig_selection, sdkconfig_selection, loc in self._ordered(self.changed_choices):
                 prefix = f"{escape(loc)}: " if loc else ""
                 self._log_for_severity(
                     f"{prefix}{choice_name}: Kconfig default selection: {kconfig_selection}, "
@@ -310,7 +310,7 @@ class DefaultValuesArea(Area):
                 )
 
         if verbosity == VERBOSITY_VERBOSE and self.changed_values_promptless:
-            for sym_name, kconfig_value, sdkconfig_value, is_user_set, loc in self.changed_values_promptless:
+            for sym_name, kconfig_value, sdkconfig_value, is_user_set, loc in self._ordered(self.changed_values_promptless):
                 prefix = f"{escape(loc)}: " if loc else ""
                 log.note(
                     f"{prefix}{sym_name} (promptless): Kconfig default value: {kconfig_value}, "
@@ -320,6 +320,14 @@ class DefaultValuesArea(Area):
                 )
 
         log.hint(self.info_string.strip())
+
+    @staticmethod
+    def _ordered(records: Set[tuple]) -> List[tuple]:
+        """
+        The records are kept in sets; report them in a fixed order, so that the same configuration gives the same
+        report (text and JSON file) in every run, whatever the hash seed of the process.
+        """
+        return sorted(records, key=lambda record: tuple(str(field) for field in record))
 
     def return_json(self) -> Optional[dict]:
         """
@@ -334,13 +342,13 @@ class DefaultValuesArea(Area):
 
         if self.changed_defaults:
             ret_json["data"]["changed_defaults"] = list()
-            for sym_name, kconfig_value, sdkconfig_value, _loc in self.changed_defaults:
+            for sym_name, kconfig_value, sdkconfig_value, _loc in self._ordered(self.changed_defaults):
                 ret_json["data"]["changed_defaults"].append(
                     {"name": sym_name, "kconfig_default": kconfig_value, "sdkconfig_default": sdkconfig_value}
                 )
         if self.changed_values_promptless:  # There is all the info in json every time
             ret_json["data"]["mismatched_promptless"] = list()
-            for sym_name, kconfig_value, sdkconfig_value, is_user_set, _loc in self.changed_values_promptless:
+            for sym_name, kconfig_value, sdkconfig_value, is_user_set, _loc in self._ordered(self.changed_values_promptless):
                 ret_json["data"]["mismatched_promptless"].append(
                     {
                         "name": sym_name,
@@ -351,7 +359,7 @@ class DefaultValuesArea(Area):
                 )
         if self.changed_choices:
             ret_json["data"]["changed_choices"] = list()
-            for choice_name, kconfig_selection, sdkconfig_selection, _loc in self.changed_choices:
+            for choice_name, kconfig_selection, sdkconfig_selection, _loc in self._ordered(self.changed_choices):
                 ret_json["data"]["changed_choices"].append(
                     {
                         "name": choice_name,
